@@ -25,6 +25,9 @@ pub enum Echo {
     Duplicate(u16),
     /// echo the previous keep-alive's id
     Previous,
+    /// a late echo that is on its way when the deadline passes: its first n bytes arrive 200 ms before the next
+    /// Keep Alive is due, the rest 300 ms after
+    LateSplit(u8),
 }
 
 #[derive(Clone, Debug, Serialize, Deserialize, PartialEq)]
@@ -137,6 +140,20 @@ impl Sched {
         }
         self.seq += 1;
         self.heap.push(Due { at: due.max(now), seq: self.seq, bytes: frame[from..].to_vec(), last_of: Some(idx) });
+    }
+}
+
+impl Sched {
+    /// a frame whose first `n` bytes are delivered at `early` and the rest at `due` (no segmentation plan applies)
+    fn schedule_split(&mut self, now: u64, early: u64, due: u64, label: &str, frame: Vec<u8>, n: usize) {
+        let idx = self.next_idx;
+        self.next_idx += 1;
+        self.tl.lock().unwrap().frames.push(FrameRec { idx, label: label.to_string(), scheduled_at: now, due, len: frame.len() });
+        let n = n.clamp(1, frame.len() - 1);
+        self.seq += 1;
+        self.heap.push(Due { at: early.max(now), seq: self.seq, bytes: frame[..n].to_vec(), last_of: None });
+        self.seq += 1;
+        self.heap.push(Due { at: due.max(now), seq: self.seq, bytes: frame[n..].to_vec(), last_of: Some(idx) });
     }
 }
 
@@ -256,6 +273,11 @@ pub async fn timed_client(c: &mut Client, sc: &Scenario, plan: SegPlan, tl: Arc<
                         echo_at(&mut sched, now + u64::from(d.max(1)), id);
                     }
                     Echo::Previous => echo_at(&mut sched, now, prev_id.unwrap_or(id ^ 1)),
+                    Echo::LateSplit(n) => {
+                        let due = now + PERIOD + 300;
+                        tl.lock().unwrap().echoes.push((due, id));
+                        sched.schedule_split(now, now + PERIOD - 200, due, "Echo", Pkt::CfgKeepAliveSb { id }.frame(), usize::from(n));
+                    }
                 }
                 prev_id = Some(id);
             }
